@@ -543,6 +543,9 @@ class MergeTreeInterp:
         self.rounds = 0
         self.merged_src = set()              # slot ids that were a source in the current round
         self.steps = 0
+        self.unknown_decisions = 0
+        self.unknown_tests = set()
+        self.policy = lambda k: True
 
     def run(self):
         slots = [Slot(i) for i in range(self.n)]
@@ -605,7 +608,12 @@ class MergeTreeInterp:
                     return None          # defensive check on values outside the model
                 if isinstance(s.test, ast.Call) and dotted(s.test.func) == "isinstance":
                     return self.block(s.body, env)     # type dispatch: any branch assigns the tag; take the first
-                raise MTUndecided("condition `%s`" % unparse(s.test))
+                # a data-dependent decision (e.g. on a sketch's contents): resolved by the policy of this run; the schedule
+                # must be right whichever way such decisions go
+                self.unknown_decisions += 1
+                self.unknown_tests.add(unparse(s.test, 70))
+                choice = self.policy(self.unknown_decisions)
+                return self.block(s.body if choice else s.orelse, env)
             return self.block(s.body if t else s.orelse, env)
         if isinstance(s, ast.While):
             while True:
@@ -883,29 +891,45 @@ def rule_mergetree(ctx, nmax=None):
     nmax = nmax or (1024 if ctx.tier == "thorough" else 64)
     fails, und = [], []
     rounds_seen = {}
+    policies = [("always true", lambda k: True), ("always false", lambda k: False), ("alternating", lambda k: k % 2 == 0),
+                ("alternating'", lambda k: k % 2 == 1), ("every third", lambda k: k % 3 == 0)]
+    unknown_tests = set()
     for n in range(1, nmax + 1):
-        it = MergeTreeInterp(pm, order, n)
-        try:
-            res = it.run()
-        except MTUndecided as u:
-            und.append((n, str(u)))
+        for pi, (pname, pol) in enumerate(policies):
+            it = MergeTreeInterp(pm, order, n)
+            it.policy = pol
+            try:
+                res = it.run()
+            except MTUndecided as u:
+                und.append((n, str(u)))
+                break
+            except MTViolation as v:
+                fails.append((n, str(v) + ((" (data-dependent decisions `%s` resolved %s)" % ("`, `".join(sorted(it.unknown_tests)), pname)) if it.unknown_decisions else "")))
+                break
+            unknown_tests |= it.unknown_tests
+            if not isinstance(res, Slot):
+                fails.append((n, "n=%d: returns %r, not a sketch" % (n, res)))
+                break
+            want = Counter({i: 1 for i in range(n)})
+            if res.members != want:
+                missing = sorted(set(want) - set(res.members))
+                dup = sorted(k for k, v in res.members.items() if v > 1)
+                fails.append((n, "n=%d: the returned sketch lacks worker sketches %s%s%s" % (
+                    n, missing[:6], (" and counts %s twice" % dup[:6]) if dup else "",
+                    (" when the data-dependent decisions `%s` are resolved %s" % ("`, `".join(sorted(it.unknown_tests)), pname)) if it.unknown_decisions else "")))
+                break
+            rounds_seen[n] = it.rounds
+            if not it.unknown_decisions:
+                break          # no data-dependent decision: one run decides this n
+        if und:
             break
-        except MTViolation as v:
-            fails.append((n, str(v)))
-            continue
-        if not isinstance(res, Slot):
-            fails.append((n, "n=%d: returns %r, not a sketch" % (n, res)))
-            continue
-        want = Counter({i: 1 for i in range(n)})
-        if res.members != want:
-            missing = sorted(set(want) - set(res.members))
-            dup = sorted(k for k, v in res.members.items() if v > 1)
-            fails.append((n, "n=%d: the returned sketch lacks worker sketches %s%s" % (n, missing[:6], (" and counts %s twice" % dup[:6]) if dup else "")))
-            continue
-        rounds_seen[n] = it.rounds
     if und:
         ctx.ob("mergetree", pm, pm.node, "parallel_merging schedule", "merge schedule interpretable", None, "n=%d: %s" % und[0])
         return
+    if unknown_tests and not fails:
+        ctx.ob("mergetree", pm, pm.node, "parallel_merging: data-dependent decisions %s" % sorted(unknown_tests),
+               "the schedule is decided for every resolution of its data-dependent decisions", None,
+               "5 resolution policies were explored without a violation, which is not all of them")
     ctx.ob("mergetree", pm, pm.node, "parallel_merging schedule for n = 1..%d" % nmax,
            "for every worker count the pairwise rounds use disjoint sketches, discard only merged sources, terminate, and return one "
            "sketch holding every worker's sketch exactly once", not fails,
